@@ -184,12 +184,14 @@ type TsT = SetUnionWithTombstones<EmptySet<u8>, SingletonSet<u8>>;
 type TsO = SetUnionWithTombstones<OptionSet<u8>, OptionSet<u8>>;
 type TsA = SetUnionWithTombstones<ArraySet<u8, 1>, ArraySet<u8, 1>>;
 type TsR = SetUnionWithTombstones<HashSet<u64>, RoaringTombstoneSet>;
+type TsVR = SetUnionWithTombstones<Vec<u64>, Vec<u64>>;
 type TsF = SetUnionWithTombstones<HashSet<String>, FstTombstoneSet<String>>;
 
 type TmH<V> = MapUnionWithTombstones<HashMap<u8, V>, HashSet<u8>>;
 type TmS<V> = MapUnionWithTombstones<SingletonMap<u8, V>, EmptySet<u8>>;
 type TmT<V> = MapUnionWithTombstones<EmptyMap<u8, V>, SingletonSet<u8>>;
 type TmR<V> = MapUnionWithTombstones<HashMap<u64, V>, RoaringTombstoneSet>;
+type TmVR<V> = MapUnionWithTombstones<HashMap<u64, V>, Vec<u64>>;
 type TmF<V> = MapUnionWithTombstones<HashMap<String, V>, FstTombstoneSet<String>>;
 
 pub fn table() -> Vec<Entry> {
@@ -338,6 +340,8 @@ pub fn table() -> Vec<Entry> {
     own!(v, ord, TsB, q, t3);
     own!(v, merge, TsR, q, t3);
     own!(v, merge, TsF, q, t3);
+    // unsorted tombstone deltas into the roaring backing (every arrival order of the tombstones)
+    cross!(v, merge TsR, none TsVR, [delta], q, t3);
     cross!(v, latd TsH, ord TsB, [delta, ord], q, t3);
     cross!(v, latd TsH, none TsV, [delta], q, q);
     cross!(v, latd TsH, ord TsS, [delta, ord], q, t3);
@@ -349,6 +353,7 @@ pub fn table() -> Vec<Entry> {
     own!(v, latd, TmH<WbMx>, q, q);
     own!(v, merge, TmR<MxU>, q, t3);
     own!(v, merge, TmF<HS>, q, q);
+    cross!(v, merge TmR<MxU>, none TmVR<MxU>, [delta], q, t3);
     cross!(v, latd TmH<HS>, ord TmS<HS>, [delta, ord], q, p(3, 2, 2));
     cross!(v, latd TmH<HS>, ord TmS<SS>, [delta, ord], q, p(3, 2, 2));
     cross!(v, latd TmH<HS>, ord TmT<HS>, [delta, ord], q, p(3, 2, 2));
@@ -394,8 +399,9 @@ pub fn table() -> Vec<Entry> {
     atoms!(v, WithTop<WithBot<HS>>, q, t3);
     atoms!(v, WithTop<HM<HS>>, q, t3);
     atoms!(v, WithBot<HM<BS>>, q, t3);
-    atoms!(v, UfH, p(3, 0, 2), p(4, 0, 3));
-    atoms!(v, UfB, p(3, 0, 2), p(4, 0, 3));
+    atoms!(v, UfH, p(3, 0, 2), p(5, 0, 4));
+    // 5 items / 4 unions: parent chains of depth 3 with a sibling below (deep re-parenting on re-merge)
+    atoms!(v, UfB, p(5, 0, 4), p(5, 0, 5));
     atoms!(v, HM<UfB>, p(2, 0, 1), p(2, 0, 2));
     v
 }
